@@ -46,7 +46,7 @@ CLAIMED.update({
             'Bounded solver check of the closed loop for every game of a family at once (2^20..2^44 games), every product state, every environment move and every resolution of the implementation\'s nondeterminism; liveness is decided exactly (no reachable violating cycle), not by a ranking certificate.',
             TRANS_NOTE, 'DESIGN.md §3 C02'),
     'C05': ('model_checking',
-            'as C02 for gr1.make_rabin_transducer with memory (_hold, _goal) and the Rabin acceptance in the fair-cycle query',
+            'as C02 for gr1.make_rabin_transducer with memory (_hold, _goal) and the Rabin acceptance in the fair-cycle query; closed-system two-goal shapes B02g2 / B02g2h2 (exact liveness of the family, per-member runs)',
             'Bounded solver check of the Rabin(1) closed loop over game families, four modes; found (and, after the fix, re-proves absent) the blocking defect with plus_one=True.',
             TRANS_NOTE, 'DESIGN.md §3 C05'),
 })
@@ -69,7 +69,7 @@ CLAIMED.update({
 
 CLAIMED.update({
     'C18': ('model_checking',
-            'dom_to_width / _bitfield_limits / _clip_subrange translated from their Python source to z3 (own path-enumerating AST translator) and proved for symbolic lo <= hi, |.| < 2^12; hint formulas printed by the API re-read and compared with lo <= x <= hi by z3 per declaration; prime / unprime / replace_with_* on rigid-table predicate families vs bit substitution; support classification vs dependence queries',
+            'dom_to_width / _bitfield_limits / _clip_subrange translated from their Python source to z3 (own path-enumerating AST translator) and proved for symbolic lo <= hi, |.| < 2^12; hint formulas printed by the API re-read and compared with lo <= x <= hi by z3 per declaration; prime / unprime / replace_with_* on rigid-table predicate families (state predicates and actions with x and x' in one support) vs bit substitution, sat answers replayed on the real BDDs; support classification vs dependence queries',
             'Bounded solver check: the arithmetic core for ~2^24 declarations in a handful of queries; the public hint API for every (lo, hi) of a window; priming for all predicates of a shape at once with a rigid constant in the support.',
             'Trusted: z3, the py2smt translator (unsupported syntax => inconclusive), dd node accessors, omega\'s parser for re-reading printed hints. Bounds: |lo|,|hi| < 2^12 symbolic, window [-12,12] (thorough [-40,40]) through the API, 3 flexible identifiers + 1 constant for priming.',
             'DESIGN.md §3 C18'),
@@ -116,7 +116,7 @@ CLAIMED.update({
 
 CLAIMED.update({
     'C20': ('model_checking',
-            'logicizer.graph_to_logic run for real on seeded labelled graphs; an oracle built from the graph (edges, labels as independent expression trees) is compared by z3 with the exported action / initial condition for every pair of valuations with a node value in the graph; families with edge presence and label constants as rigid constants cover all sub-multigraphs on 2-3 nodes in one run',
+            'logicizer.graph_to_logic run for real on seeded labelled graphs; an oracle built from the graph (edges, labels as independent expression trees) is compared by z3 with the exported action / initial condition for every pair of valuations with a node value in the graph (each node identifier must be a value of the node variable as declared); families with edge presence and label constants as rigid constants cover all sub-multigraphs on 2-3 nodes in one run',
             'Bounded solver check per graph and per family of graphs: all valuations of the node variable, labelled variables and primed copies symbolic.',
             'Trusted: z3, dd node accessors. Bounds: graphs of 2-5 nodes, variables of 1-3 bits, labels of depth <= 2; receptiveness assumptions only checked for absence when not requested.',
             'DESIGN.md §3 C20'),
@@ -140,8 +140,8 @@ CLAIMED.update({
 
 CLAIMED.update({
     'C17': ('model_checking',
-            'pairs of exports compared by z3 for all assignments: same formula on dd.cudd vs dd.autoref, recursive vs iterative prefix translator vs an independent reader, and every BDD obtained earlier re-exported after each operation of an enumerated history (declare, add, quantify, substitute, print as formula, reorder, collect, copy, synthesize, repeat, relabel); str(automaton) lines re-read and compared with the BDD they label',
-            'Histories are enumerated (all sequences of length <= 3 over a 12-operation alphabet, seeded longer ones); the solver quantifies over assignments, not over histories -- stated plainly.',
+            'pairs of exports compared by z3 for all assignments: same formula on dd.cudd vs dd.autoref, recursive vs iterative prefix translator vs an independent reader, and every BDD obtained earlier re-exported after each operation of an enumerated history (declare, add, quantify, substitute, print as formula, reorder, collect, copy, synthesize, repeat, relabel, operator definitions in a copy, attempted re-declaration); str(automaton) lines re-read and compared with the BDD they label',
+            'Histories are enumerated (all sequences of length <= 3 over a 14-operation alphabet, seeded longer ones); the solver quantifies over assignments, not over histories -- stated plainly.',
             'Trusted: z3, dd node accessors; dd reordering / garbage collection are exercised, not verified. Reuse of a collected node identifier is only met opportunistically.',
             'DESIGN.md §3 C17'),
 })
